@@ -244,7 +244,7 @@ impl SigChannel {
                 }
             }
         }
-        for v in 0..7u64 {
+        for v in 0..9u64 {
             ops.push(Op::new(0, S_UNCLAMPED_EXT).arg(v).seed(rng.data_seed()));
         }
         // (small-order key, small-order R) pairs with S = 0 (24 of the 64 per run), and a sample with R = [S]B + T
@@ -564,7 +564,12 @@ impl Scenario for SigChannel {
                     // extended secret = scalar (32 bytes, below 2^255, not clamped) || prefix (32 bytes)
                     let mut ext = [0u8; 64];
                     ext.copy_from_slice(&data(op.seed | 16, 64));
-                    match op.arg % 7 {
+                    match op.arg % 9 {
+                        7 | 8 => {
+                            // runs of a repeated byte (0x77, 0x88, 0xff, ...) over a stretch or exactly one 64-bit word of
+                            // the scalar: carries run through the whole stretch in the window recoding of scalarmult_base
+                            ext[..32].copy_from_slice(&crate::scn::xcurve::special_scalar(3 + op.arg % 9, op.seed));
+                        }
                         6 => ext[31] = 0x80,                        // top of scalarmult_base's documented range (a[31] <= 0x80)
                         0 => ext[31] &= 0x7f,                       // any scalar below 2^255
                         1 => {
@@ -598,7 +603,7 @@ impl Scenario for SigChannel {
                     want = true;
                     // the independent model must agree that what the signer produced satisfies the equation
                     if med::verify(&m, &p, &s) != med::Verdict::Accept {
-                        return Err(Violation::new("rejected-honest", i, "a signature satisfying the RFC 8032 equation", "independent model rejects (public key, signature) produced by extended_to_public / signature_extended", format!("ed25519 signing from an unclamped extended secret, class {} (message {} bytes)", op.arg % 7, m.len())));
+                        return Err(Violation::new("rejected-honest", i, "a signature satisfying the RFC 8032 equation", "independent model rejects (public key, signature) produced by extended_to_public / signature_extended", format!("ed25519 signing from an unclamped extended secret, class {} (message {} bytes)", op.arg % 9, m.len())));
                     }
                 }
                 S_TORSION_NONCANONICAL_R => {
